@@ -97,10 +97,12 @@ fn pass_1_internal(
         }
         match item {
             Item::Label(name) => {
-                if let Some(_) = common_context.set_label(name.clone(), (segment.t, cur_address as u32)) {
+                // any other symbol of that name (label, .equ, .define, .def) makes it ambiguous
+                if common_context.exist(name) {
                     // TODO: add display current string of mistake and previous location
                     bail!("Identifier {} is used twice, {}", name, line);
                 }
+                common_context.set_label(name.clone(), (segment.t, cur_address as u32));
             }
             Item::Instruction(op, _) => match segment.t {
                 SegmentType::Code => {
